@@ -282,6 +282,8 @@ def check(run, views, tier):
         from ..engine import include
         from . import c10
         include(run, c10, {cfg: crates}, tier, "|op-id")
+        from . import c17
+        include(run, c17, {cfg: {"ipp": crates["ipp"]}}, tier, "R-READY")
     run.meta.setdefault("coverage_extra", {})["exhaustive"] = True
     run.meta["coverage_extra"]["inputs_enumerated"] = exhaustive_inputs
 
